@@ -81,9 +81,7 @@ def withMap (w : World) (a : Args) (k : MapObj → World × String) : World × S
     | none => (w, "bad-op:no-such-map")
   | [] => (w, "bad-op:no-map-name")
 
-def stepArgs (w : World) (op : String) (a : Args) : World × String :=
-  match op with
-  | "cfg" =>
+def opCfg (w : World) (a : Args) : World × String :=
     match a.pos, parseKind a, a.nat? "covord", a.nat? "spord", optVal a "sentinel",
           parseNats (a.getD "covpix" "_") with
     | n :: _, some kind, some co, some so, some sent, some cp =>
@@ -91,7 +89,9 @@ def stepArgs (w : World) (op : String) (a : Args) : World × String :=
       | .ok m => (w.put n m, "ok")
       | .error e => (w, errLine e)
     | _, _, _, _, _, _ => (w, "bad-op:cfg")
-  | "upd" => withMap w a fun m =>
+
+def opUpd (w : World) (a : Args) : World × String :=
+  withMap w a fun m =>
     let n := a.pos.headD ""
     match parseNats (a.getD "pix" "_") with
     | none => (w, "bad-op:pix")
@@ -118,7 +118,9 @@ def stepArgs (w : World) (op : String) (a : Args) : World × String :=
         match apiUpdate m (a.getD "op" "replace") pix vals single with
         | .ok m' => (w.put n m', "ok")
         | .error e => (w.put n { m with cache := none }, errLine e)
-  | "updr" => withMap w a fun m =>
+
+def opUpdr (w : World) (a : Args) : World × String :=
+  withMap w a fun m =>
     let n := a.pos.headD ""
     match parseRanges (a.getD "ranges" "_") with
     | none => (w, "bad-op:ranges")
@@ -137,7 +139,9 @@ def stepArgs (w : World) (op : String) (a : Args) : World × String :=
         match apiUpdateRanges m (a.getD "op" "replace") R v slicePath with
         | .ok m' => (w.put n m', "ok")
         | .error e => (w.put n { m with cache := none }, errLine e)
-  | "sop" => withMap w a fun m =>
+
+def opSop (w : World) (a : Args) : World × String :=
+  withMap w a fun m =>
     let n := a.pos.headD ""
     let k? : Option Scalar :=
       match a.get? "bits", a.get? "k" with
@@ -160,7 +164,9 @@ def stepArgs (w : World) (op : String) (a : Args) : World × String :=
           (intOnlyOp (a.getD "op" "add") && !m.kind.isIntegerMap) ||
           (!intOnlyOp (a.getD "op" "add") && (match m.kind with | .wide _ => true | _ => false))
         ((if inPlace && !early then w.put n m0 else w), errLine e)
-  | "mask" => withMap w a fun m =>
+
+def opMask (w : World) (a : Args) : World × String :=
+  withMap w a fun m =>
     let n := a.pos.headD ""
     match w.get? (a.getD "by" "") with
     | none => (w, "bad-op:no-such-map")
@@ -172,14 +178,18 @@ def stepArgs (w : World) (op : String) (a : Args) : World × String :=
         if a.flag "inplace" then (w.put n { m with st := st, cache := none }, "ok")
         else (w.put (a.getD "r" "tmp") { m with st := st, cache := none }, "ok")
       | .error e => (w, errLine e)
-  | "astype" => withMap w a fun m =>
+
+def opAstype (w : World) (a : Args) : World × String :=
+  withMap w a fun m =>
     match (a.get? "dtype").bind parseDT, optVal a "sentinel" with
     | some dt, some sent =>
       (match apiAstype m dt sent with
        | .ok m' => (w.put (a.getD "r" "tmp") m', "ok")
        | .error e => (w, errLine e))
     | _, _ => (w, "bad-op:astype")
-  | "pack" => withMap w a fun m =>
+
+def opPack (w : World) (a : Args) : World × String :=
+  withMap w a fun m =>
     match apiAsBitPacked m with
     | .ok m' =>
       let r := a.getD "r" "tmp"
@@ -188,7 +198,9 @@ def stepArgs (w : World) (op : String) (a : Args) : World × String :=
       -- `metadata=self.metadata` (a packed source goes through copy(), which drops it)
       ({ w with metas := (r, if m.kind == .packed then [] else cur) :: w.metas.filter (·.1 != r) }, "ok")
     | .error e => (w, errLine e)
-  | "bop" => withMap w a fun m =>
+
+def opBop (w : World) (a : Args) : World × String :=
+  withMap w a fun m =>
     let n := a.pos.headD ""
     let rhs? : Option BoolRhs :=
       match a.get? "const", a.get? "rhs" with
@@ -205,14 +217,18 @@ def stepArgs (w : World) (op : String) (a : Args) : World × String :=
         if inPlace then (w.put n { m with st := st, cache := none }, "ok")
         else (w.put (a.getD "r" "tmp") { m with st := st, cache := none }, "ok")
       | .error e => ((if inPlace && m.kind.isBool then w.put n { m with cache := none } else w), errLine e)
-  | "inv" => withMap w a fun m =>
+
+def opInv (w : World) (a : Args) : World × String :=
+  withMap w a fun m =>
     let n := a.pos.headD ""
     match apiInvert m with
     | .ok st =>
       if a.flag "inplace" then (w.put n { m with st := st, cache := none }, "ok")
       else (w.put (a.getD "r" "tmp") { m with st := st, cache := none }, "ok")
     | .error e => (w, errLine e)
-  | "bits" => withMap w a fun m =>
+
+def opBits (w : World) (a : Args) : World × String :=
+  withMap w a fun m =>
     let n := a.pos.headD ""
     match parseNats (a.getD "pix" "_"), parseNats (a.getD "bits" "_") with
     | some pix, some bits =>
@@ -220,15 +236,21 @@ def stepArgs (w : World) (op : String) (a : Args) : World × String :=
        | .ok m' => (w.put n m', "ok")
        | .error e => (w, errLine e))
     | _, _ => (w, "bad-op:bits")
-  | "chk" => withMap w a fun m =>
+
+def opChk (w : World) (a : Args) : World × String :=
+  withMap w a fun m =>
     match parseNats (a.getD "pix" "_"), parseNats (a.getD "bits" "_") with
     | some pix, some bits =>
       (match apiCheckBits m pix bits with
        | .ok l => (w, showBits l)
        | .error e => (w, errLine e))
     | _, _ => (w, "bad-op:chk")
-  | "copy" => withMap w a fun m => (w.put (a.getD "r" "tmp") { m with cache := none }, "ok")
-  | "info" => withMap w a fun m =>
+
+def opCopy (w : World) (a : Args) : World × String :=
+  withMap w a fun m => (w.put (a.getD "r" "tmp") { m with cache := none }, "ok")
+
+def opInfo (w : World) (a : Args) : World × String :=
+  withMap w a fun m =>
     let dts : DT → String := fun dt => match dt with
       | .int b sg => (if sg then "i" else "u") ++ toString (b / 8)
       | .flt b => "f" ++ toString (b / 8)
@@ -239,7 +261,8 @@ def stepArgs (w : World) (op : String) (a : Args) : World × String :=
       | .wide n => "wide:" ++ toString n
       | .recd fs pr => "rec:" ++ ",".intercalate (fs.map dts) ++ ":" ++ toString pr
     (w, s!"kind={k} covord={m.covord} spord={m.spord} sentinel={showVal m.sent}")
-  | "mop" =>
+
+def opMop (w : World) (a : Args) : World × String :=
     let names := splitList (a.getD "maps" "_")
     match names.mapM w.get? with
     | none => (w, "bad-op:no-such-map")
@@ -261,7 +284,9 @@ def stepArgs (w : World) (op : String) (a : Args) : World × String :=
         match apiMultiOp row maps with
         | .ok m => (w.put (a.getD "r" "tmp") m, "ok")
         | .error e => (w, errLine e)
-  | "deg" => withMap w a fun m =>
+
+def opDeg (w : World) (a : Args) : World × String :=
+  withMap w a fun m =>
     match a.nat? "ord" with
     | none => (w, "bad-op:ord")
     | some ord =>
@@ -274,21 +299,26 @@ def stepArgs (w : World) (op : String) (a : Args) : World × String :=
         match apiDegrade m ord (a.getD "red" "mean") wm with
         | .ok r => (w.put (a.getD "r" "tmp") r, "ok")
         | .error e => (w, errLine e)
-  | "upg" => withMap w a fun m =>
+
+def opUpg (w : World) (a : Args) : World × String :=
+  withMap w a fun m =>
     match a.nat? "ord" with
     | none => (w, "bad-op:ord")
     | some ord =>
       match apiUpgrade m ord with
       | .ok r => (w.put (a.getD "r" "tmp") r, "ok")
       | .error e => (w, errLine e)
-  | "moc" => withMap w a fun m =>
+
+def opMoc (w : World) (a : Args) : World × String :=
+  withMap w a fun m =>
     match validPixels m.c m.vc m.st with
     | none => (w, errLine .index)
     | some vp =>
       if vp.isEmpty then (w, errLine .value) else
       let u := mocWrite m.spord m.covord (vp.map Int.toNat)
       ({ w with mocs := (a.getD "f" "f", u) :: w.mocs.filter (·.1 != a.getD "f" "f") }, showNats u)
-  | "mocread" =>
+
+def opMocread (w : World) (a : Args) : World × String :=
     match (w.mocs.find? (·.1 == a.getD "f" "f")).map (·.2), a.nat? "covord" with
     | some u, some co =>
       let (mo, ps) := mocRead u
@@ -299,7 +329,9 @@ def stepArgs (w : World) (op : String) (a : Args) : World × String :=
           | .error er => (w, errLine er))
        | .error er => (w, errLine er))
     | _, _ => (w, "bad-op:no-such-map")
-  | "single" => withMap w a fun m =>
+
+def opSingle (w : World) (a : Args) : World × String :=
+  withMap w a fun m =>
     match a.nat? "field", optVal a "sentinel" with
     | some i, some sent =>
       if a.flag "copy" then
@@ -316,27 +348,36 @@ def stepArgs (w : World) (op : String) (a : Args) : World × String :=
                                           view := some (n, i) }) :: w.pool.filter (·.1 != r) }, "ok")
          | .error e => (w, errLine e))
     | _, _ => (w, "bad-op:single")
-  | "scov" => withMap w a fun m =>
+
+def opScov (w : World) (a : Args) : World × String :=
+  withMap w a fun m =>
     match a.nat? "k" with
     | none => (w, "bad-op:k")
     | some k =>
       if k ≥ m.c.ncov then (w, errLine .index) else
       (w.put (a.getD "r" "tmp") { m with st := singleCovpixMap m.c m.vc m.st k, cache := none }, "ok")
-  | "meta" => withMap w a fun _ =>
+
+def opMeta (w : World) (a : Args) : World × String :=
+  withMap w a fun _ =>
     let n := a.pos.headD ""
     let cur := ((w.metas.find? (·.1 == n)).map (·.2)).getD []
     let k := a.getD "k" ""
     ({ w with metas := (n, (k, a.getD "v" "") :: cur.filter (·.1 != k)) :: w.metas.filter (·.1 != n) }, "ok")
-  | "getmeta" => withMap w a fun _ =>
+
+def opGetmeta (w : World) (a : Args) : World × String :=
+  withMap w a fun _ =>
     let n := a.pos.headD ""
     let cur := ((w.metas.find? (·.1 == n)).map (·.2)).getD []
     (w, ((cur.find? (·.1 == a.getD "k" "")).map (·.2)).getD "none")
-  | "write" => withMap w a fun m =>
+
+def opWrite (w : World) (a : Args) : World × String :=
+  withMap w a fun m =>
     let n := a.pos.headD ""
     let cur := ((w.metas.find? (·.1 == n)).map (·.2)).getD []
     let fo := apiWrite m cur
     ({ w with files := (a.getD "f" "f", fo) :: w.files.filter (·.1 != a.getD "f" "f") }, "ok")
-  | "read" =>
+
+def opRead (w : World) (a : Args) : World × String :=
     match (w.files.find? (·.1 == a.getD "f" "f")).map (·.2) with
     | none => (w, "bad-op:no-such-map")
     | some fo =>
@@ -352,11 +393,13 @@ def stepArgs (w : World) (op : String) (a : Args) : World × String :=
           let w := w.put r m
           ({ w with metas := (r, fo.mdata) :: w.metas.filter (·.1 != r) }, "ok")
         | .error e => (w, errLine e)
-  | "covread" =>
+
+def opCovread (w : World) (a : Args) : World × String :=
     match (w.files.find? (·.1 == a.getD "f" "f")).map (·.2) with
     | none => (w, "bad-op:no-such-map")
     | some fo => (w, showBits (readCoverage (cfgOf fo.covord fo.spord) fo.file))
-  | "fitsraw" =>
+
+def opFitsraw (w : World) (a : Args) : World × String :=
     -- COV / SPARSE extensions as astropy shows them (decoded by the harness): layout check
     -- with the verified checker and literal comparison with the model's file
     match (w.files.find? (·.1 == a.getD "f" "f")).map (·.2), parseInts (a.getD "cov" "_"),
@@ -372,7 +415,8 @@ def stepArgs (w : World) (op : String) (a : Args) : World × String :=
          (w, s!"inv={inv} same={if same then 1 else 0}"))
     | none, _, _ => (w, "bad-op:no-such-map")
     | _, _, _ => (w, "bad-op:fitsraw")
-  | "dor" =>
+
+def opDor (w : World) (a : Args) : World × String :=
     match (w.hpfiles.find? (·.1 == a.getD "f" "f")).map (·.2), a.nat? "ord", a.nat? "covord" with
     | some hf, some ord, some co =>
       -- HEALPix-format input: convert, then degrade in memory (weight files are not allowed)
@@ -404,7 +448,8 @@ def stepArgs (w : World) (op : String) (a : Args) : World × String :=
        | _, _ => (w, "bad-op:dor"))
     | none, _ => (w, "bad-op:no-such-map")
     | _, _ => (w, "bad-op:dor")
-  | "cat" =>
+
+def opCat (w : World) (a : Args) : World × String :=
     let names := splitList (a.getD "files" "_")
     match names.mapM (fun n => (w.files.find? (·.1 == n)).map (·.2)) with
     | none => (w, "bad-op:no-such-map")
@@ -412,7 +457,8 @@ def stepArgs (w : World) (op : String) (a : Args) : World × String :=
       match apiCat fs (a.nat? "covord") (a.flag "check") (a.flag "or") with
       | .ok fo => ({ w with files := (a.getD "f" "f", fo) :: w.files.filter (·.1 != a.getD "f" "f") }, "ok")
       | .error e => (w, errLine e)
-  | "fromhp" =>
+
+def opFromhp (w : World) (a : Args) : World × String :=
     match (a.get? "dtype").bind parseDT, a.nat? "covord", a.nat? "spord", optVal a "sentinel",
           parseVals (a.getD "vals" "_") with
     | some dt, some co, some so, some sent, some vals =>
@@ -427,7 +473,9 @@ def stepArgs (w : World) (op : String) (a : Args) : World × String :=
          | .ok m => (w.put (a.getD "r" "tmp") m, "ok")
          | .error e => (w, errLine e))
     | _, _, _, _, _ => (w, "bad-op:fromhp")
-  | "genhp" => withMap w a fun m =>
+
+def opGenhp (w : World) (a : Args) : World × String :=
+  withMap w a fun m =>
     let perm? : Option (Option (Array Nat × Array Nat)) :=
       if a.getD "nest" "1" == "1" then some none
       else match parseNats (a.getD "n2r" "_") with
@@ -443,7 +491,9 @@ def stepArgs (w : World) (op : String) (a : Args) : World × String :=
       match apiGenerateHealpix m (a.nat? "ord") (a.getD "red" "mean") (a.nat? "key") perm with
       | .ok l => (w, showVals l)
       | .error e => (w, errLine e)
-  | "interp" => withMap w a fun m =>
+
+def opInterp (w : World) (a : Args) : World × String :=
+  withMap w a fun m =>
     let grp (s : String) : List String := s.splitOn ":"
     let nb? := (splitList (a.getD "nb" "_")).mapM fun g => (grp g).mapM String.toNat?
     let w? := (splitList (a.getD "w" "_")).mapM fun g => (grp g).mapM parseDy
@@ -453,17 +503,21 @@ def stepArgs (w : World) (op : String) (a : Args) : World × String :=
        | .ok l => (w, showVals l)
        | .error e => (w, errLine e))
     | _, _ => (w, "bad-op:interp")
-  | "hpxwrite" => withMap w a fun m =>
+
+def opHpxwrite (w : World) (a : Args) : World × String :=
+  withMap w a fun m =>
     match apiWriteHealpix m with
     | .ok f => ({ w with hpfiles := (a.getD "f" "f", f) :: w.hpfiles.filter (·.1 != a.getD "f" "f") }, "ok")
     | .error e => (w, errLine e)
-  | "hpximplicit" =>
+
+def opHpximplicit (w : World) (a : Args) : World × String :=
     match (a.get? "dtype").bind parseDT, a.nat? "spord", parseVals (a.getD "vals" "_") with
     | some dt, some so, some vals =>
       ({ w with hpfiles := (a.getD "f" "f", .implicit so dt (a.getD "ordering" "NESTED" == "RING") vals) ::
                   w.hpfiles.filter (·.1 != a.getD "f" "f") }, "ok")
     | _, _, _ => (w, "bad-op:hpximplicit")
-  | "hpxread" =>
+
+def opHpxread (w : World) (a : Args) : World × String :=
     match (w.hpfiles.find? (·.1 == a.getD "f" "f")).map (·.2), a.nat? "covord" with
     | some f, some co =>
       let r2n := (a.get? "r2n").bind parseNats |>.map List.toArray
@@ -472,7 +526,8 @@ def stepArgs (w : World) (op : String) (a : Args) : World × String :=
        | .error e => (w, errLine e))
     | none, _ => (w, "bad-op:no-such-map")
     | _, _ => (w, "bad-op:hpxread")
-  | "rand" =>
+
+def opRand (w : World) (a : Args) : World × String :=
     -- random points: the draws, validity flags and geometry are recorded from the real run;
     -- the model recomputes what the bookkeeping / arithmetic must produce from them
     let n := (a.nat? "n").getD 0
@@ -508,7 +563,9 @@ def stepArgs (w : World) (op : String) (a : Args) : World × String :=
         let wtxt := if a.flag "nowin" then "na" else s!"{win.1}:{win.2}"
         (w, s!"len={n} valid=1 det=1 starved=0 win={wtxt} sel={sel}")
       | _, _, _, _ => (w, "bad-op:rand-uniform")
-  | "geom" => withMap w a fun m =>
+
+def opGeom (w : World) (a : Args) : World × String :=
+  withMap w a fun m =>
     -- a geometric shape = the pixel ranges it renders at the map resolution (from hpgeom) + a value
     let n := a.pos.headD ""
     match parseRanges (a.getD "ranges" "_") with
@@ -588,7 +645,9 @@ def stepArgs (w : World) (op : String) (a : Args) : World × String :=
             | .ok r => (w.put (a.getD "r" "tmp") { r with cache := none }, "ok")
             | .error er => (w, errLine er)
       else (w, "bad-op:mode")
-  | "set" => withMap w a fun m =>
+
+def opSet (w : World) (a : Args) : World × String :=
+  withMap w a fun m =>
     -- `m[a:b:c] = value`: `__setitem__` with a slice = update_values_pix(arange(a, b, c), value)
     let n := a.pos.headD ""
     match ((a.getD "slice" "").splitOn ":").map String.toNat? with
@@ -604,8 +663,12 @@ def stepArgs (w : World) (op : String) (a : Args) : World × String :=
          | .ok m' => (w.put n m', "ok")
          | .error e => (w.put n { m with cache := none }, errLine e))
     | _ => (w, "bad-op:slice")
-  | "vals" => withMap w a fun m => (w, showVals ((List.range m.npix).map m.abs))
-  | "get" => withMap w a fun m =>
+
+def opVals (w : World) (a : Args) : World × String :=
+  withMap w a fun m => (w, showVals ((List.range m.npix).map m.abs))
+
+def opGet (w : World) (a : Args) : World × String :=
+  withMap w a fun m =>
     let pix? : Option (List Nat) :=
       match a.get? "slice" with
       | some sl =>
@@ -625,11 +688,15 @@ def stepArgs (w : World) (op : String) (a : Args) : World × String :=
       | .ok vs =>
         if a.flag "vm" then (w, showBits (vs.map m.vc.valid)) else (w, showVals vs)
       | .error e => (w, errLine e)
-  | "valid" => withMap w a fun m =>
+
+def opValid (w : World) (a : Args) : World × String :=
+  withMap w a fun m =>
     match validPixels m.c m.vc m.st with
     | some l => (w, showList toString (l.mergeSort (· ≤ ·)))
     | none => (w, errLine .index)
-  | "nvalid" => withMap w a fun m =>
+
+def opNvalid (w : World) (a : Args) : World × String :=
+  withMap w a fun m =>
     -- `n_valid` with its cache (`_n_valid`)
     match m.cache with
     | some n => (w, toString n)
@@ -637,8 +704,12 @@ def stepArgs (w : World) (op : String) (a : Args) : World × String :=
       if a.get? "path" == some "str" && m.kind == .packed then (w, "nocount") else
       let n := nValid m.vc m.st
       (w.put (a.pos.headD "") { m with cache := some n }, toString n)
-  | "covmap" => withMap w a fun m => (w, showNats (coverageCounts m.c m.vc m.st))
-  | "vpsc" => withMap w a fun m =>
+
+def opCovmap (w : World) (a : Args) : World × String :=
+  withMap w a fun m => (w, showNats (coverageCounts m.c m.vc m.st))
+
+def opVpsc (w : World) (a : Args) : World × String :=
+  withMap w a fun m =>
     match a.nat? "k" with
     | none => (w, "bad-op:k")
     | some k =>
@@ -646,7 +717,9 @@ def stepArgs (w : World) (op : String) (a : Args) : World × String :=
       match validPixelsSingleCovpix m.c m.vc m.st k with
       | some l => (w, showList toString (l.mergeSort (· ≤ ·)))
       | none => (w, errLine .index)
-  | "fracdet" => withMap w a fun m =>
+
+def opFracdet (w : World) (a : Args) : World × String :=
+  withMap w a fun m =>
     match a.get? "r", a.nat? "ord" with
     | some r, some ord =>
       if ord > m.spord || ord < m.covord then (w, errLine .value) else
@@ -656,9 +729,15 @@ def stepArgs (w : World) (op : String) (a : Args) : World × String :=
       (w.put r { covord := m.covord, spord := ord, kind := .plain (.flt 64), sent := .num 0 0,
                  st := ⟨fs.cov, sp⟩ }, "ok")
     | _, _ => (w, "bad-op:fracdet")
-  | "covmask" => withMap w a fun m => (w, showBits (apiCovMask m))
-  | "dump" => withMap w a fun m => (w, showState m)
-  | "state" => withMap w a fun m =>
+
+def opCovmask (w : World) (a : Args) : World × String :=
+  withMap w a fun m => (w, showBits (apiCovMask m))
+
+def opDump (w : World) (a : Args) : World × String :=
+  withMap w a fun m => (w, showState m)
+
+def opState (w : World) (a : Args) : World × String :=
+  withMap w a fun m =>
     -- arrays exported from the real object: check the layout with the verified checker,
     -- compute the dense view with the Lean `abs`, compare literally with the model state
     match parseInts (a.getD "cov" "_"), parseVals (a.getD "sp" "_") with
@@ -670,10 +749,66 @@ def stepArgs (w : World) (op : String) (a : Args) : World × String :=
       let covm := if inv == "ok" then showBits ((List.range m.c.ncov).map (covered m.c s)) else "-"
       (w, s!"inv={inv} lit={if lit then 1 else 0} covmask={covm} abs={dense}")
     | _, _ => (w, "bad-op:state")
-  | "drop" => (match a.pos with
+
+def opDrop (w : World) (a : Args) : World × String :=
+  (match a.pos with
     | n :: _ => ({ w with pool := w.pool.filter (·.1 != n) }, "ok")
     | [] => (w, "bad-op:drop"))
-  | "reset" => ({}, "ok")
+
+def opReset (w : World) (a : Args) : World × String :=
+  ({}, "ok")
+
+def stepArgs (w : World) (op : String) (a : Args) : World × String :=
+  match op with
+  | "cfg" => opCfg w a
+  | "upd" => opUpd w a
+  | "updr" => opUpdr w a
+  | "sop" => opSop w a
+  | "mask" => opMask w a
+  | "astype" => opAstype w a
+  | "pack" => opPack w a
+  | "bop" => opBop w a
+  | "inv" => opInv w a
+  | "bits" => opBits w a
+  | "chk" => opChk w a
+  | "copy" => opCopy w a
+  | "info" => opInfo w a
+  | "mop" => opMop w a
+  | "deg" => opDeg w a
+  | "upg" => opUpg w a
+  | "moc" => opMoc w a
+  | "mocread" => opMocread w a
+  | "single" => opSingle w a
+  | "scov" => opScov w a
+  | "meta" => opMeta w a
+  | "getmeta" => opGetmeta w a
+  | "write" => opWrite w a
+  | "read" => opRead w a
+  | "covread" => opCovread w a
+  | "fitsraw" => opFitsraw w a
+  | "dor" => opDor w a
+  | "cat" => opCat w a
+  | "fromhp" => opFromhp w a
+  | "genhp" => opGenhp w a
+  | "interp" => opInterp w a
+  | "hpxwrite" => opHpxwrite w a
+  | "hpximplicit" => opHpximplicit w a
+  | "hpxread" => opHpxread w a
+  | "rand" => opRand w a
+  | "geom" => opGeom w a
+  | "set" => opSet w a
+  | "vals" => opVals w a
+  | "get" => opGet w a
+  | "valid" => opValid w a
+  | "nvalid" => opNvalid w a
+  | "covmap" => opCovmap w a
+  | "vpsc" => opVpsc w a
+  | "fracdet" => opFracdet w a
+  | "covmask" => opCovmask w a
+  | "dump" => opDump w a
+  | "state" => opState w a
+  | "drop" => opDrop w a
+  | "reset" => opReset w a
   | _ => (w, "bad-op:unknown")
 
 def step (w : World) (line : String) : World × String :=
